@@ -111,7 +111,7 @@ func runBehaviour(b *Behaviour, opts *MatOpts, src string, onCall func(k int, c 
 		}
 		switch c.Op {
 		case "start":
-			trig, err := readTrigger(sa, matTrigger(b, c.Choice, opts.FlowType))
+			trig, err := readTrigger(sa, matTriggerOpts(b, c.Choice, opts.FlowType, opts))
 			if err != nil {
 				return fmt.Errorf("trigger: %w", err)
 			}
